@@ -43,7 +43,8 @@ class TopocentricFrame(frames.Frame):
 
         from ..propagators.listeners import stations_listeners, Listener
 
-        listeners = kwargs.setdefault("listeners", [])
+        # The station listeners are added to a copy: the list is the caller's
+        listeners = kwargs["listeners"] = list(kwargs.get("listeners", []))
         events = kwargs.pop("events", None)
         event_classes = tuple()
 
